@@ -67,10 +67,11 @@ type selRec struct {
 }
 
 type poolRig struct {
-	w    *World
-	c    *sim.Ctl
-	st   *sim.Stream
-	mode string // C14 | C05
+	w       *World
+	c       *sim.Ctl
+	st      *sim.Stream
+	mode    string // C14 | C05
+	hdrName string // the field "policy header" hashes (X-Key, or Host)
 
 	n           int
 	policy      string
@@ -278,6 +279,10 @@ func (wp *wrapPolicy) Select(pool proxy.HostPool, r *http.Request) *proxy.Upstre
 		key = r.RequestURI
 	case "header":
 		for _, n := range wp.args {
+			if strings.EqualFold(n, "Host") {
+				key += r.Host // (net/http keeps this one field out of the header map)
+				continue
+			}
 			key += r.Header.Get(n)
 		}
 	case "first":
@@ -606,7 +611,9 @@ func runPool(mode string) sim.RigFunc {
 		}
 		c.Params["backends_written"] = []string{"inline", "upstream-lines-first", "upstream-lines-last", "one-inline-rest-in-the-middle", "inline"}[shape]
 		if r.policy == "header" {
-			b.WriteString("\t\tpolicy simwrap_header X-Key\n")
+			r.hdrName = []string{"X-Key", "X-Key", "X-Key", "Host"}[st.Draw(4)]
+			fmt.Fprintf(&b, "\t\tpolicy simwrap_header %s\n", r.hdrName)
+			c.Params["policy_header"] = r.hdrName
 		} else {
 			fmt.Fprintf(&b, "\t\tpolicy simwrap_%s\n", r.policy)
 		}
@@ -765,7 +772,11 @@ func (r *poolRig) addReq(i int) {
 	}
 	// a third of the bodies travel chunked (no Content-Length on the way in)
 	chunked := blen > 0 && st.Draw(3) == 0
-	req := fmt.Sprintf("POST %s HTTP/1.1\r\nHost: p.test\r\nX-Req: %d\r\nConnection: close\r\n", q.uri, i)
+	host := "p.test"
+	if r.hdrName == "Host" && q.hdrKey != "" && q.hdrKey[len(q.hdrKey)-1]%2 == 1 {
+		host = "P.TEST" // (the same site under another spelling of its name: another key for "policy header Host")
+	}
+	req := fmt.Sprintf("POST %s HTTP/1.1\r\nHost: %s\r\nX-Req: %d\r\nConnection: close\r\n", q.uri, host, i)
 	if chunked {
 		req += "Transfer-Encoding: chunked\r\n"
 	} else {
